@@ -14,8 +14,8 @@ RULE = ('(i) in-process sessions of the real main() under a sys.monitoring LINE-
         'Markov guesses, saved before exit, and the resumed run supplies exactly the rest. non-trivial = schedule whose delivery happened while '
         'guesses were being generated; distinct by hash of the merged (thread,function,line) trace')
 SHARDS = {'quick': 4, 'thorough': 16}
-N = {'quick': 3, 'thorough': 20}
-POINTS = {'quick': 200, 'thorough': 1500}
+N = {'quick': 3, 'thorough': 8}
+POINTS = {'quick': 200, 'thorough': 400}
 
 def gen_case(rng):
     case = c15.gen_case(rng)
